@@ -35,6 +35,10 @@ Theorem C10b_ws_skips_layout_fixed : ws_skips_layout_fixed_stmt.
 Proof. exact ws_skips_layout_fixed. Qed.
 Print Assumptions C10b_ws_skips_layout_fixed.
 
+Theorem C10b_ws_skips_line_layout : ws_skips_line_layout_stmt.
+Proof. exact ws_skips_line_layout. Qed.
+Print Assumptions C10b_ws_skips_line_layout.
+
 Theorem C10b_ws_skips_layout_refuted : ws_skips_layout_refuted_stmt.
 Proof. exact ws_skips_layout_refuted. Qed.
 Print Assumptions C10b_ws_skips_layout_refuted.
@@ -75,11 +79,24 @@ Theorem C10b_action_span_refuted : action_span_refuted_stmt.
 Proof. exact action_span_refuted. Qed.
 Print Assumptions C10b_action_span_refuted.
 
-(* the whole-file round-trip law: parse (print layout grammar) = grammar, for a formal printer tied to the code *)
+(* the whole-file round-trip law: parse (print layout grammar) = grammar, for a formal printer tied to the code;
+   all three dialects (Original, Grmtools, Eco), every declaration kind, programs section *)
 
 Theorem C10round_yacc_roundtrip : yacc_roundtrip_stmt.
 Proof. exact yacc_roundtrip. Qed.
 Print Assumptions C10round_yacc_roundtrip.
+
+Theorem C10round_yacc_roundtrip_original : yacc_roundtrip_original_stmt.
+Proof. exact yacc_roundtrip_original. Qed.
+Print Assumptions C10round_yacc_roundtrip_original.
+
+Theorem C10round_yacc_roundtrip_grmtools : yacc_roundtrip_grmtools_stmt.
+Proof. exact yacc_roundtrip_grmtools. Qed.
+Print Assumptions C10round_yacc_roundtrip_grmtools.
+
+Theorem C10round_yacc_roundtrip_eco : yacc_roundtrip_eco_stmt.
+Proof. exact yacc_roundtrip_eco. Qed.
+Print Assumptions C10round_yacc_roundtrip_eco.
 
 Theorem C10round_yacc_parse_roundtrip : yacc_parse_roundtrip_stmt.
 Proof. exact yacc_parse_roundtrip. Qed.
@@ -132,3 +149,16 @@ Print Assumptions C10round_action_span_roundtrip.
 Theorem C10round_roundtrip_hyps_satisfiable : roundtrip_hyps_satisfiable_stmt.
 Proof. exact roundtrip_hyps_satisfiable. Qed.
 Print Assumptions C10round_roundtrip_hyps_satisfiable.
+
+(* what the code drops silently (outside the hypotheses of the round trip): findings *)
+Theorem C10round_rule_type_conflict_refuted : rule_type_conflict_refuted_stmt.
+Proof. exact rule_type_conflict_refuted. Qed.
+Print Assumptions C10round_rule_type_conflict_refuted.
+
+Theorem C10round_parse_param_twice_refuted : parse_param_twice_refuted_stmt.
+Proof. exact parse_param_twice_refuted. Qed.
+Print Assumptions C10round_parse_param_twice_refuted.
+
+Theorem C10round_value_comment_refuted : value_comment_refuted_stmt.
+Proof. exact value_comment_refuted. Qed.
+Print Assumptions C10round_value_comment_refuted.
